@@ -462,12 +462,17 @@ def run_derive_datasets(ctx, seed):
     m_b = m.copy()
     m_b[2:-2, 2:-2] &= rng.random((H - 4, W - 4)) < 0.5          # a larger unmasked region that contains the one of `m`
 
+    # the dataset class itself, or a user's subclass of it (a survey-specific dataset): what it inherits behaves the same
+    class VerifSurveyImaging(aa.Imaging):
+        pass
+    cls_ = VerifSurveyImaging if seed % 4 in (0, 3) else aa.Imaging
+
     def unmasked():
         def arr(v):
             a = aa.Array2D.no_mask(values=v.copy(), pixel_scales=0.4, origin=(0.3, -0.2))
             return a.native if native else a
-        return aa.Imaging(data=arr(d), noise_map=arr(nz), psf=aa.Kernel2D.no_mask(values=k.copy(), pixel_scales=0.4),
-                          noise_covariance_matrix=None if cov is None else cov.copy())
+        return cls_(data=arr(d), noise_map=arr(nz), psf=aa.Kernel2D.no_mask(values=k.copy(), pixel_scales=0.4),
+                    noise_covariance_matrix=None if cov is None else cov.copy())
 
     def mask():
         return aa.Mask2D(mask=m.copy(), pixel_scales=0.4, origin=(0.3, -0.2))
@@ -536,7 +541,7 @@ def run_derive_datasets(ctx, seed):
                       quantity="noise_covariance_matrix (= rows/columns of the unmasked pixels)", variant="against the input matrix",
                       got_shape=None if gc is None else list(_np(gc).shape), expected_shape=[len(keep), len(keep)])
         T.verify("dataset derivation " + on)
-        ctx.case("ds", seed, on, nontrivial=True, cls=["derive_dataset", "derive:" + on, "dataset_storage:" + ("native+covariance" if native else "slim")], sample=None)
+        ctx.case("ds", seed, on, nontrivial=True, cls=["derive_dataset", "derive:" + on, "dataset_storage:" + ("native+covariance" if native else "slim"), "dataset_class:" + cls_.__name__], sample=None)
 
 
 # ----------------------------------------------------------------------------------------- entry-point sweep
